@@ -44,6 +44,6 @@ def _templates(ctx):
 
 STRUCTURAL = (globals().get('STRUCTURAL') or []) + [_templates]
 
-VALIDATION = [validate_bs4]
+VALIDATION = [validate_bs4, validate_ir]
 
 FUNCTIONS = FUNCTIONS + [q for q in CACHE if q not in FUNCTIONS]
